@@ -836,15 +836,16 @@ def repairedWrapperRows : List CopyRow := [
 
 /-- obligation re-checked against the regenerated table on every run: the source idioms agree with
     the identity probe; structures are copied the way the statement needs (deep copy and pickle
-    rebuild a mutable structure, an immutable one is returned as is by deepcopy only, `copy.copy`
-    is shallow); every wrapper row is safe or one of the listed findings -/
+    rebuild a mutable structure, pickle rebuilds an immutable one too, deepcopy hands it back as it
+    is or rebuilds it — never a half copy); every wrapper row is safe or one of the listed findings.
+    (What `copy.copy` does is not constrained by the statement: `copy_shares_first_level` describes
+    a `shallow` row, which is what today's table has.) -/
 theorem copy_tables_ok :
     Generated.copyRows.all (fun r => r.agree) = true
     ∧ (projOf Generated.copyRows .deepcopy .structure).mode = .deep
-    ∧ (projOf Generated.copyRows .deepcopy .immStructure).mode = .self_
+    ∧ (projOf Generated.copyRows .deepcopy .immStructure).mode ≠ .shallow
     ∧ (projOf Generated.copyRows .pickle .structure).mode = .deep
     ∧ (projOf Generated.copyRows .pickle .immStructure).mode = .deep
-    ∧ (projOf Generated.copyRows .copy .structure).mode = .shallow
     ∧ Generated.copyRows.all (fun r => !r.kind.isWrapper || wrapperRowSafe r || unsafeWrapperRows.contains r) = true := by
   decide
 
